@@ -184,11 +184,41 @@ def fam_awaiters(seed, i):
     return sc
 
 
+def restart_weak_across(sc, rng):
+    """Weak handles the actor took from its own context (Context::weak_sender / weak_caller / weak_address) in one
+    incarnation are used before and after restarts: "all handles stay valid" (C07), messages through them are accepted
+    and handled in order like any other (C01, C15)."""
+    kind = rng.choice(["ctx_weak_sender", "ctx_weak_sender", "ctx_weak_caller", "ctx_weak_address"])
+    wk = {"ctx_weak_address": "waddr", "ctx_weak_sender": "wsender", "ctx_weak_caller": "wcaller"}[kind]
+    cfg = {"cap": rng.choice([-1, -1, 2]), "strat": rng.choice(["restart", "recreate"]), "pscr": [Y] * rng.choice([0, 1]), "sscr": [[Y] * rng.choice([0, 1])], "owning": False}
+    main, handles = setup_main(rng, cfg, {"c1": "addr", "c2": rng.choice(["addr", "sender"])}, True)
+    sc["clients"]["main"] = main
+
+    def use(n):
+        if wk == "wsender":
+            return {"op": rng.choice(["send", "send", "force_send"]), "h": "w1", "scr": rng.choice([[], [Y]])}
+        if wk == "wcaller":
+            return {"op": "call", "h": "w1", "scr": rng.choice([[], [Y]])}
+        return {"op": "upgrade", "h": "w1", "nh": f"u{n}", "to": "c1"}
+
+    c1 = [{"op": "call", "h": "h_c1", "scr": [eff(kind, 0, "w1")]}, {"op": "claim", "h": "w1"}, use(0)]
+    for k in range(rng.randint(1, 3)):
+        c1.append(rng.choice([{"op": "restart", "h": "h_c1"}, {"op": "send", "h": "h_c1", "scr": [eff("ctx_restart")]}]))
+        c1 += [{"op": "yield"}] * rng.randint(0, 1)
+        c1 += [use(10 * k + 1), {"op": "send", "h": "h_c1", "scr": []}, use(10 * k + 2)]
+    c1.append({"op": "call", "h": "h_c1", "scr": []})
+    sc["clients"]["c1"] = c1
+    sc["clients"]["c2"] = [{"op": rng.choice(["send", "call"]) if handles["c2"]["h_c2"] == "addr" else "send", "h": "h_c2", "scr": rng.choice([[], [Y]])} for _ in range(rng.randint(1, 4))]
+    return sc
+
+
 def fam_restart(seed, i):
     """C07: restart requests through Addr::restart and Context::restart, all strategies."""
     rng = random.Random(f"restart-{seed}-{i}")
     sc = base("restart", seed, i, rng, horizon=10)
     strat = rng.choice(["restart", "restart", "recreate", "recreate", "none"])
+    if rng.random() < 0.15:
+        return restart_weak_across(sc, rng)
     sscr = [[Y] * rng.choice([0, 1])]
     r = rng.random()
     if r < 0.15:
